@@ -151,8 +151,13 @@ def run_case(case):
             stats['pairs_compared'] += 1
             if rec['digest'] != base['digest'] or rec['trace'] != base['trace']:
                 diff = first_difference(seed, first, index, config)
+                mechanism = classify(diff)
+                if (rec.get('d15') or base.get('d15')) and config[2]:
+                    # known finding D15 (C03): the leaked CancelScope of first() ends up in
+                    # Concurrent(<CancelScope>), which trips a usage assertion - only without -O
+                    mechanism = 'differs-under-O-after-first-cancelscope-leak'
                 violations.append({
-                    'mechanism': classify(diff),
+                    'mechanism': mechanism,
                     'msg': 'program %d: log under %s differs from reference: %s' % (
                         index, config[0], json.dumps(diff)[:900]),
                     'case': {'seed': seed, 'first': index, 'last': index + 1}})
